@@ -145,6 +145,7 @@ pub struct Store<K: HKey> {
     pub cas: Option<Cas<K>>,
     pub stats: Option<OrphanStats<K>>,
     pub fresh_stats: bool,
+    pub readers: std::collections::HashMap<u64, std::io::BufReader<std::fs::File>>,
 }
 
 pub fn names_of<K: HKey>(u: &Universe<K>) -> Names {
@@ -168,7 +169,7 @@ impl<K: HKey> Store<K> {
     pub fn new(root: &Path, cfg: &Cfg) -> Self {
         let u = Universe::<K>::new(&cfg.kt);
         let names = names_of(&u);
-        Store { root: root.to_path_buf(), cfg: cfg.clone(), u, names, cas: None, stats: None, fresh_stats: false }
+        Store { root: root.to_path_buf(), cfg: cfg.clone(), u, names, cas: None, stats: None, fresh_stats: false, readers: Default::default() }
     }
 
     pub fn open(&mut self) -> Value {
@@ -213,6 +214,34 @@ impl<K: HKey> Store<K> {
             return res_ok("ok", 0);
         }
         self.fresh_stats = self.fresh_stats && name == "cleanup";
+        if name == "rddrain" {
+            // a reader obtained earlier (possibly before overwrites, removals, a reopen) is drained now
+            let id = op["id"].as_u64().unwrap_or(0);
+            return match self.readers.remove(&id) {
+                Some(mut r) => {
+                    let mut v = vec![];
+                    match r.read_to_end(&mut v) {
+                        Ok(_) => res_ok(&self.u.name_of_bytes(&v), v.len() as i64),
+                        Err(_) => res_err("read"),
+                    }
+                }
+                None => res_ok("-", 0),
+            };
+        }
+        if name == "rdopen" {
+            let id = op["id"].as_u64().unwrap_or(0);
+            let Some(cas) = self.cas.as_ref() else { return res_err("closed") };
+            let k = self.u.key(op["k"].as_u64().unwrap() as usize);
+            return match catch_unwind(AssertUnwindSafe(|| cas.get_reader(&k))) {
+                Ok(Ok(Some(r))) => {
+                    self.readers.insert(id, r);
+                    res_ok("ok", 0)
+                }
+                Ok(Ok(None)) => res_ok("-", 0),
+                Ok(Err(e)) => res_err(&err_class(&e)),
+                Err(p) => res_panic(&panic_msg(p)),
+            };
+        }
         let Some(cas) = self.cas.as_ref() else { return res_err("closed") };
         let u = &self.u;
         let stats = self.stats.as_ref();
